@@ -43,6 +43,22 @@ def generate(tier, seed):
             yield {'grid': list(g), 'size': list(s)}
 
 
+def ref_nd_tab(nx, ny, nz, nidx, ref_n):
+    t = np.zeros((nx + 1, ny + 1, nz + 1), dtype=int)
+    for (i, j, k), n in zip(nidx, ref_n):
+        t[i, j, k] = n
+    return t
+
+
+def same_domain(a, b):
+    """two DomainDefinition objects describe the same grid (public attributes and tables)"""
+    keys = ('dim', 'nel', 'nnodes', 'elemnodes', 'nelx', 'nely', 'nelz')
+    if any(getattr(a, k) != getattr(b, k) for k in keys):
+        return False
+    return all(np.array_equal(np.asarray(getattr(a, k)), np.asarray(getattr(b, k)))
+               for k in ('conn', 'elements', 'nodes', 'element_size'))
+
+
 def execute(case):
     import pymoto as pym
     nx, ny, nz = case['grid']
@@ -63,6 +79,16 @@ def execute(case):
 
     chk(dom.dim == dim and dom.nel == fe.nel(nx, ny, nz) and dom.nnodes == fe.nnodes(nx, ny, nz)
         and dom.elemnodes == 2 ** dim, 'counts', got=[dom.dim, dom.nel, dom.nnodes, dom.elemnodes])
+    if dim == 2:
+        # the other documented spellings of a 2-D grid: nelz omitted, nelz=None
+        for how, mk in (('omitted', lambda: pym.DomainDefinition(nx, ny, unitx=sz[0], unity=sz[1], unitz=sz[2])),
+                        ('none', lambda: pym.DomainDefinition(nx, ny, None, unitx=sz[0], unity=sz[1], unitz=sz[2]))):
+            try:
+                d2 = mk()
+                okd = same_domain(d2, dom)
+            except Exception as e:  # noqa
+                okd = False
+            chk(okd, 'two_d_spelling', how=how)
 
     # element numbers: bijection with Cartesian indices, scalar and array forms
     eidx = fe.elem_indices(nx, ny, nz)
@@ -96,6 +122,17 @@ def execute(case):
             ijk=[i, j, k])
         # corners are exactly the 2^dim nodes of this cell
         chk(len(set(conn[e].tolist())) == 2 ** dim, 'conn_distinct_corners')
+    # index arrays of any shape ("integer or array"): a block of elements addressed by meshgrid index arrays
+    Ib = np.meshgrid(np.arange(nx), np.arange(ny), *( [np.arange(nz)] if dim == 3 else [] ), indexing='ij')
+    gotb = np.asarray(dom.get_elemconnectivity(*Ib))
+    refb = np.zeros(Ib[0].shape + (2 ** dim,), dtype=int)
+    for idx in np.ndindex(*Ib[0].shape):
+        refb[idx] = conn[fe.elem_number(nx, ny, nz, *(list(idx) + [0] * (3 - len(idx))))]
+    chk(gotb.shape == refb.shape and exact_equal(gotb, refb), 'elemconnectivity_block',
+        got_shape=list(gotb.shape), want_shape=list(refb.shape))
+    nb = np.asarray(dom.get_nodenumber(*np.meshgrid(np.arange(nx + 1), np.arange(ny + 1),
+                                                     *([np.arange(nz + 1)] if dim == 3 else []), indexing='ij')))
+    chk(exact_equal(nb.reshape(nb.shape + (1,) * (3 - nb.ndim)), ref_nd_tab(nx, ny, nz, nidx, ref_n)), 'nodenumber_block')
     for ndof in (1, 2, 3):
         dc = fe.dof_connectivity(nx, ny, nz, ndof)
         got = dom.get_dofconnectivity(ndof)
